@@ -275,6 +275,14 @@ func (m *Machine) vrtCall(name string, a []Value) Value {
 		return c.IntI(SI64, m.allocBytes)
 	case "IsSymbolic":
 		return c.Bool(true)
+	case "IteU32", "IteI64", "IteF64":
+		return c.Ite(a[0].(*Term), a[1].(*Term), a[2].(*Term))
+	case "And":
+		return c.And(a[0].(*Term), a[1].(*Term))
+	case "Or":
+		return c.Or(a[0].(*Term), a[1].(*Term))
+	case "Implies":
+		return c.Or(c.Not(a[0].(*Term)), a[1].(*Term))
 	case "SameBits32":
 		return c.Eq(c.FBits(a[0].(*Term)), c.FBits(a[1].(*Term)))
 	case "SameBits":
